@@ -5,7 +5,8 @@
 (* threads attach background queues and drop their attach handles - a      *)
 (* behaviour of GlobalDetach?                                              *)
 (*                                                                         *)
-(* Logged: TryStart/TryEnd(ok), AttachStart/AttachEnd(ok),                 *)
+(* Logged: TryStart/TryEnd(ok), ObsStart/ObsEnd(is_attached() result),     *)
+(* AttachStart/AttachEnd(ok),                                              *)
 (* DetachStart/DetachEnd by the calling threads; Next/Flush/Close by the   *)
 (* recording streams inside the queues' writer threads (field s = the      *)
 (* stream's tag "1".."3").  The instants at which a call takes effect are  *)
@@ -34,7 +35,7 @@ TReset ==
     /\ Ev("Reset") /\ Adv
     /\ aatt' = 0 /\ pendApp' = {} /\ linApp' = {} /\ okd' = {} /\ errd' = {}
     /\ accepted' = [s \in S3 |-> {}] /\ nexted' = [s \in S3 |-> <<>>] /\ nflushed' = [s \in S3 |-> 0]
-    /\ closedS' = {} /\ astate' = [s \in S3 |-> "new"] /\ hint' = <<>>
+    /\ closedS' = {} /\ astate' = [s \in S3 |-> "new"] /\ obs' = <<>> /\ hint' = <<>>
 
 TTryStart == Ev("TryStart") /\ Adv /\ TryStart(Rec[l].p, Rec[l].e)
              /\ hint' = (Rec[l].e :> Rec[l].h) @@ hint
@@ -46,6 +47,8 @@ TDetEnd   == Ev("DetachEnd") /\ Adv /\ DetachEnd(Rec[l].s) /\ UNCHANGED hint
 TNext     == Ev("Next") /\ Adv /\ Next(SId(Rec[l].s), Rec[l].e) /\ UNCHANGED hint
 TFlush    == Ev("Flush") /\ Adv /\ Flush(SId(Rec[l].s)) /\ UNCHANGED hint
 TClose    == Ev("Close") /\ Adv /\ Close(SId(Rec[l].s)) /\ UNCHANGED hint
+TObsStart == Ev("ObsStart") /\ Adv /\ ObsStart(Rec[l].p) /\ UNCHANGED hint
+TObsEnd   == Ev("ObsEnd") /\ Adv /\ ObsEnd(Rec[l].p, IF Rec[l].v = 1 THEN "yes" ELSE "no") /\ UNCHANGED hint
 TQuiesce  == Ev("Quiesce") /\ Adv /\ Quiesced /\ UNCHANGED <<dvars, hint>>
 
 \* silent: the instant a call takes effect.  The hint (the result the call reports later) only
@@ -57,11 +60,15 @@ SilentLinApp == /\ l <= N
 SilentAtt == /\ l <= N
              /\ \E s \in S3 : LinAttach(s) \/ LinAttachFail(s) \/ LinDetach(s)
              /\ UNCHANGED <<l, hint>>
+\* an is_attached() call reads at one instant; the value it will report prunes the search
+SilentObs == /\ l <= N
+             /\ \E p \in DOMAIN obs : LinObs(p)
+             /\ UNCHANGED <<l, hint>>
 
 TNext_ ==
     \/ TReset \/ TTryStart \/ TTryEnd \/ TAttStart \/ TAttEnd \/ TDetStart \/ TDetEnd
-    \/ TNext \/ TFlush \/ TClose \/ TQuiesce
-    \/ SilentLinApp \/ SilentAtt
+    \/ TNext \/ TFlush \/ TClose \/ TQuiesce \/ TObsStart \/ TObsEnd
+    \/ SilentLinApp \/ SilentAtt \/ SilentObs
 
 TSpec == TInit /\ [][TNext_]_tvars
 
